@@ -17,19 +17,14 @@ use tokio::sync::Mutex;
 
 /// `Jet1090` exactly as main() builds it (main.rs:327-340)
 pub fn new_app(width: u16) -> Jet1090 {
+    // main() lists every field (main.rs:327-340); all of them have their Default
+    // value except the pre-selected first row, the scrollbar state and the width.
+    // Going through Default keeps the driver compiling when a field is added.
     Jet1090 {
-        sensors: BTreeMap::new(),
-        items: Vec::new(),
         state: TableState::default().with_selected(0),
         scroll_state: ScrollbarState::new(0),
-        should_quit: false,
-        should_clear: false,
-        state_vectors: BTreeMap::new(),
-        sort_key: SortKey::default(),
-        sort_asc: false,
         width,
-        is_search_mode: false,
-        search_query: "".to_string(),
+        ..Default::default()
     }
 }
 
@@ -176,10 +171,8 @@ async fn main_loop_inner(
     };
     let aircraftdb: BTreeMap<String, crate::aircraftdb::Aircraft> = BTreeMap::new();
     let mut aircraft: BTreeMap<ICAO, AircraftState> = BTreeMap::new();
-    let filters = crate::filters::Filters {
-        df_filter: None,
-        aircraft_filter: None,
-    };
+    // (no output filter configured: every field absent)
+    let filters: crate::filters::Filters = serde_json::from_str("{}").expect("Filters without any filter");
     let mut file: Option<tokio::fs::File> = None;
     let mut redis_connect: Option<redis::aio::MultiplexedConnection> = None;
     let redis_topic = "jet1090".to_string();
